@@ -100,6 +100,11 @@ claimed = {
    text="Every error (and every member of every error list) is checked: non-empty message; for validation errors a known rule name and at least one location; positive line and column; extensions.file equal to the name of one of the named sources; JSON encoding is an object with message / locations (positive integers) / path (strings, non-negative integers) / extensions (object) and decodes back to the same message, locations and path; every path of ≤ 6 elements survives a JSON round trip. Distinct (entry point, message template) pairs reached are counted in the evidence.",
    note="Trusted: encoding/json. Which errors are produced is the other properties' business; here every produced error is inspected.",
    ref="DESIGN.md §4 C20"),
+ "C11": dict(
+   technique=T + "explicit-state search over call histories (every sequence ≤3/4 of 13 operations on a fresh schema; canonical deep snapshot of the schema graph after every step; expected distinct states: 1) with a write monitor on every non-local store of the repository, and stateless exploration of thread interleavings under a cooperative scheduler (every ordered pair of operations as 2 threads, ≤2/3 preemptions; thorough: triples over 5 operations, ≤2 preemptions) with prefix replay and preemption bounding; auxiliary free-running -race pass",
+   text="Histories: after every operation of every sequence the reflection snapshot of everything reachable from the Schema (slices up to capacity, map contents, pointer sharing) must equal the initial one, no instrumented store may target schema-owned memory, and the operation must return its run-alone result. Interleavings: operations run as goroutines under a cooperative scheduler that switches at every statement touching a package-level variable of the repository and at every store into memory reachable from package-level variables or from the schema (both computed by reflection; the overlay registers every package-level variable); every schedule up to the preemption bound is executed with the same three oracles. The race detector pass (8 free-running goroutines on one schema) is sampling and only auxiliary.",
+   note="Trusted: the instrumenter's store/global hooks (422 stores, 23 map stores, 40 global uses, 35 registered variables on the current tree), reflection snapshot. Reads of shared memory are not scheduling points: a block between two points only reads the schema and writes thread-private memory, unless the monitor fires. copy() and append into a local alias are seen by the snapshot, not by the monitor.",
+   ref="DESIGN.md §4 C11"),
 }
 checks = []
 for i in ids:
@@ -126,9 +131,9 @@ m = {
   "source_commits": [],
   "add_only": True,
  },
- "engines": [{"name": "mc", "path": "mc/", "serves_properties": sorted(claimed), "kind_free_text": "hand-written bounded-exhaustive explorer (sequence trees, odometer products, choice-tree DFS with prefix replay and deviation bounding, cooperative scheduler) over the real code built with overlay instrumentation; reference models in Go"}],
+ "engines": [{"name": "mc", "path": "mc/", "serves_properties": sorted(claimed), "kind_free_text": "hand-written bounded-exhaustive explorer (sequence trees, odometer products, subsets/permutations, choice-tree DFS with prefix replay and deviation bounding, cooperative scheduler, explicit-state history search) over the real code built with `go build -overlay` instrumentation (step counter, call-depth gauge, map-order seam, store/global hooks); reference models in Go (reflex, refgrammar, refschema, refvalid, refcoerce)"}],
  "checks": checks,
- "not_applicable": [{"property_id": i, "reason": "check not built yet (work in progress; DESIGN.md §4 describes the planned check)"} for i in ids if i not in claimed],
+ "not_applicable": [{"property_id": i, "reason": "check not built yet"} for i in ids if i not in claimed],
  "notes": "All checks: cwd=/verif. VERIF_SEED is accepted and recorded; nothing is sampled. Fix commits in /repo are listed in KNOWN_FINDINGS.txt.",
 }
 json.dump(m, open(os.path.join(root, 'MANIFEST.json'), 'w'), indent=1, ensure_ascii=False)
